@@ -30,7 +30,7 @@ ANCHORS = [
 ]
 REQUIRED = ["ideal_judged", "l2_judged", "regime:pilot-limited-below-transition", "regime:power-limited-below-transition",
             "regime:crossing", "regime:rampdown", "regime:pilot-below-envelope-start-in-rampdown", "regime:full",
-            "regime:zero-pilot", "reference_crosschecks", "reset_checks", "split_checks"]
+            "regime:zero-pilot", "reference_crosschecks", "reset_checks", "reset_after_explicit_reset_checks", "split_checks"]
 BUDGET_S = {"quick": 200, "thorough": 2400}
 
 
@@ -161,7 +161,13 @@ def _reset_checks(obs, b, c0, cap, wit):
     b.reset(c0 / 2)
     if battery_state(b)[0] != c0 / 2:
         obs.violate("reset_value", f"reset({c0 / 2!r}) left charge {battery_state(b)[0]!r}", **wit)
+    # reset to an explicit charge, use the battery, then a plain reset(): the construction-time initial state comes back
+    b.charge(16, 208, 5)
     b.reset()
+    c, _, _, pw = battery_state(b)
+    obs.ev("reset_after_explicit_reset_checks")
+    if c != c0 or pw != 0:
+        obs.violate("reset_after_explicit_reset_not_restoring", f"reset(x); charge; reset(): charge {c!r} (initial {c0!r}), power {pw!r}", **wit)
 
 
 def classify(v):
